@@ -872,7 +872,7 @@ def _token_roundtrip(case):
         if fs is None:
             require([b[1], b[2]] == [it[1], it[2]], "frame times after the round trip", [b[1], b[2]], [it[1], it[2]])
         else:
-            tol = fs / 1000 * (1 + 1e-9)
+            tol = fs / 1000 * (1 + 1e-9) + 1e-12
             require(abs(b[1] - it[1]) <= tol and abs(b[2] - it[2]) <= tol, "times not recovered within one frame shift (%g s)" % (fs / 1000),
                     [b[1], b[2]], [it[1], it[2]])
     cl = ["fs_%s" % fs, "timing_" + case["timing"], "unk_" + case["unk_mode"]]
